@@ -4,4 +4,6 @@ CONSTANTS
   Levels = {"Lua51", "Lua54", "Lua55", "LuaJIT"}
   CleanUpTo = 90
   MustErrorAbove = 200
+  EvK = 12
+  EvC = 16
 INVARIANTS Emit
